@@ -21,9 +21,10 @@ TRUSTED = ['Model/ModifyColumn.v is hand-written; tied on every run by replaying
            'and comparing the resulting column and the untouched columns with the engine',
            'col_convert is the column-level conversion: it is compared on every value with usertypes.<Type>.convert '
            'composed with the documented ReferenceColumn/ReferenceListColumn overrides']
-ASSUMPTIONS = ['C23_modify_converts needs, per cell, that the new column\'s set() stores a converted value unchanged and '
-               'agrees with the conversion where strict_equal sees no change; both facts are evaluated on the '
-               'implementation for every generated value, and where they fail the oracle reports the cell (known finding)',
+ASSUMPTIONS = ['C23_modify_converts_all needs that the new column\'s set() stores a converted value unchanged and agrees '
+               'with the conversion where strict_equal sees no change; both facts are evaluated on the implementation '
+               'for every generated value of every type pair and hold without exception on the current source '
+               '(any exception is reported as a violation, kind set-not-neutral)',
                'formula recalculation and the two-way reference update are the exceptions the property names; the data '
                'path theorem covers the ModifyColumn doc action, the conversion loop and the reverse-column update']
 TECHNIQUE = ('Coq proof over a hand-written model of the ModifyColumn data path, generic in the value type and the '
@@ -33,7 +34,7 @@ LEVEL_TEXT = ('Kernel-checked for every value type, conversion, column content a
               'values alone; no other column, table, row id or column set changes (reverse column excepted). The running '
               'engine is compared with the real column-level conversion for all 156 type pairs.')
 LEVEL_NOTE = ('Kernel strength: the engine\'s recalculation of dependent formulas and the value conversion functions themselves '
-              '(C22) are outside the model. On the unchanged tree set() re-parses one alt-text (ints >= 2^31 into RefList).')
+              '(C22) are outside the model. The RefList alt-text re-parse (repaired by 31c0c3e) stays in the corpus as a witness.')
 
 
 TYPES = ['Text', 'Int', 'Numeric', 'Bool', 'Date', 'DateTime:UTC', 'DateTime:America/New_York', 'Choice', 'ChoiceList',
@@ -219,13 +220,17 @@ def run_case(T, T2, vals, raw, two_way=False, doc=None):
       se.add((tok(o), tok(c)))
     if not same(set_c, c) or (objtypes.strict_equal(o, c) and not same(set_o, c)):
       hyp_fail.append(r)
-  col.set(tmp, col.getdefault())
   dflt = tok(col.getdefault())
   data_cols = {c: [tok(tbl.get_column(c).raw_get(r)) for r in [0] + rows] for c in ('B', 'C')}
   res['tie'] = {'rows': rows, 'old': [tok(old[r]) for r in rows], 'conv': conv_t, 'set': set_t, 'se': sorted(se),
                 'dflt': dflt, 'new': [tok(col.raw_get(r)) for r in rows], 'B': data_cols['B'], 'C': data_cols['C'],
                 'old0': tok(old0)}
   res['hyp_fail'] = hyp_fail
+  for r in hyp_fail:
+    # the two facts C23_modify_converts_all assumes; they hold for every type on the current source
+    res['problems'].append(('set-not-neutral', 'row %d: new_column.set changes the converted value %r of %r (stores %r)'
+                            % (r, conv[r], old[r], real_set(conv[r]))))
+  col.set(tmp, col.getdefault())
   # every failing cell must be one where the hypotheses of C23_modify_converts fail (else the model is wrong)
   cell_rows = set(int(p[1].split()[1].rstrip(':')) for p in res['problems'] if p[0].startswith('cell'))
   if cell_rows - set(hyp_fail):
@@ -426,7 +431,22 @@ def correspond(ctx):
   ctx.extra['replayed_through_model'] = len(terms)
 
 
+def fixed_corpus(ctx):
+  """Witnesses of repaired defects stay in the corpus and are run first: a regression is a violation again."""
+  for k in core.load_known():
+    if k['property'] == ID and k.get('kind') == 'fixed' and k.get('witness'):
+      try:
+        d = replay(ctx, k['witness'])
+      except Exception as ex:
+        d = 'replay raised %r' % (ex,)
+      ctx.count(('fixed', k['id']), nontrivial=True, kind='fixed-witness:' + ('fails-again' if d else 'holds'))
+      if d:
+        ctx.violation(k.get('violation_kind') or 'regression', 'repaired by %s, fails again: %s' % (k.get('commit'), d),
+                      k['witness'])
+
+
 def search(ctx):
+  fixed_corpus(ctx)
   n = 0
   per_kind = collections.Counter()
   known_kinds = set(k.get('violation_kind') for k in core.load_known() if k['property'] == ID and k.get('kind') == 'known')
